@@ -18,6 +18,7 @@ from . import symx
 from .symx import SBool, SInt, SReal, ShimUnsupported, mkbool, real_log, zint
 
 int32 = 'int32'
+int16, uint16, int8, uint8 = 'int16', 'uint16', 'int8', 'uint8'
 int64 = 'int64'
 uint32 = 'uint32'
 uint64 = 'uint64'
@@ -131,6 +132,8 @@ class Arr:
         if t in (int32, 'int') and builtins.any(isinstance(v, Garbage) for v in self.data):
             # float64 garbage -> int32: still arbitrary
             return Arr(self.data, t)
+        if t in Arr._WRAP and not builtins.any(isinstance(v, Garbage) for v in self.data):
+            return Arr([self._wrapv(v, t) for v in self.data], t)      # conversion to a fixed-width integer type wraps around
         return Arr(self.data, t)
 
     def copy(self):
